@@ -267,3 +267,15 @@ Qed.
 (** the only data-parallel constructs are the three disjoint-cell loops modelled above and the excluded k-means|| sampler *)
 Theorem parallel_constructs_are_known : forall p, In p par_sites -> psite_known p = true.
 Proof. intros p Hp. pose proof parallel_known_b as H. rewrite forallb_forall in H. exact (H p Hp). Qed.
+
+(** no estimator of the claim reaches a facility the statement excludes: every reference of the library
+    code to k-means||, an unseeded generator, FastICA, the permutation p-values or t-SNE lies in the
+    facility's own defining items, in the plumbing through which the user selects it, or in a
+    documented site ([allowed_sites] in C20/Proofs.v; the reference table is regenerated from all
+    workspace crates on every run, tests / examples / benches are recorded but not constrained) *)
+Theorem claimed_estimators_do_not_reach_excluded_facilities : forall r, In r facility_refs -> r_area r = Src ->
+  exists a, In a allowed_sites /\ site_matches a r = true.
+Proof.
+  intros r Hr Ha. pose proof refs_allowed_b as H. rewrite forallb_forall in H. specialize (H r Hr).
+  unfold ref_allowed in H. rewrite Ha in H. apply existsb_exists in H. exact H.
+Qed.
